@@ -67,7 +67,7 @@ theorem fillBuf_empty (c : Nat) (sched : Nat → Nat) (hc : 1 ≤ c) (hs : Admis
   split at h
   · rename_i hb
     have hb' : s.buf = [] := by simpa using hb
-    have h0 : (s.src.take (min (sched s.k) (min c s.src.length))).length = 0 := by
+    have h0 : (s.src.take (min (sched s.k) c)).length = 0 := by
       simp only [] at h
       rw [h]; rfl
     have := hs s.k
